@@ -15,12 +15,6 @@ pub uninterp spec fn spec_utf8_bytes(s: String) -> Seq<u8>;
 pub assume_specification [String::from_utf8] (v: Vec<u8>) -> (r: Result<String, std::string::FromUtf8Error>)
     ensures r is Ok ==> spec_utf8_bytes(r->Ok_0) == v@;
 pub assume_specification<T: Clone> [<[T]>::to_vec] (s: &[T]) -> (r: Vec<T>) ensures r@ == s@;
-#[derive(Debug, Clone, Copy, PartialEq, Eq, Structural)]
-pub struct StatusCode { pub bits: u32 }
-impl StatusCode {
-    pub const BadDecodingError: StatusCode = StatusCode { bits: 0x8007_0000 };
-    pub const BadEncodingError: StatusCode = StatusCode { bits: 0x8006_0000 };
-}
 pub struct PKeyError;
 pub struct ByteString { pub value: Option<Vec<u8>> }
 impl ByteString {
@@ -109,6 +103,7 @@ def build(manifest):
     a = Asm()
     a.add('use vstd::prelude::*;\nverus! {\nglobal size_of usize == 8;\n', 'prelude', 'env')
     a.add(norm_vis(pk.enum('RsaPadding')), 'types', 'env')
+    a.add(status_code_struct(manifest), 'status codes', 'env')      # every status code of the real file (D14)
     a.add(ENV, 'env', 'env')
     a.add(f, 'legacy_password_decrypt', 'fn')
     add_proof_fns(a, LEMMAS, 'lemma')
